@@ -64,6 +64,7 @@ func main() {
 	for k := -2; k < 40; k++ {
 		ex(fmt.Sprintf("sum_to %s", z(int64(k))), z(int64(subset.SumTo(k))))
 		ex(fmt.Sprintf("sw %s", z(int64(k))), z(int64(subset.Sw(k))))
+		ex(fmt.Sprintf("loop_le %s", z(int64(k))), z(int64(subset.LoopLE(k))))
 	}
 	for _, s := range []string{"", "a", "hello", "with \"quote\""} {
 		q := `"` + fmt.Sprint(replaceQuotes(s)) + `"%string`
